@@ -468,6 +468,12 @@ func BuildReal(c *Case) (*Real, []string) {
 func (r *Real) applyBuild(b *BuildOp) []string {
 	var outs []string
 	target := r.byUid[b.Target]
+	if target == nil {
+		// the command this step addresses does not exist on the real parser (the declaration was read
+		// differently from how it was written): an observation, not a crash of the harness
+		r.dead = true
+		return []string{fmt.Sprintf("R no-command-with-uid-%d", b.Target)}
+	}
 	switch b.Kind {
 	case "addgroup":
 		data := r.makeStruct(b.Struct)
